@@ -209,7 +209,7 @@ PROPS['C22'] = {
     'not_covered': [
         "that the engine has no other cross-query state is checked mechanically on every run (source scan: the only mutable globals are SUIRON_STOP_QUERY and LOGIC_VAR_ID, no static with interior mutability, no thread_local!/lazy_static!); that it reads these two only through count_rules / next_id is read, not proved",
         'the timer thread itself (ThreadTimer) is stubbed in the start_query_timer harness: only the flag reset before arming it is proved',
-        'solve / solve_all (unit solutions, verbatim bodies; SolutionNode and ThreadTimer are opaque stand-in types, `sn.borrow().goal.clone()` is an R10 wrapper): a ghost counter shows that the search starts only after start_query_timer() and that the timer is cancelled on every path out, so no timer armed by one call can stop a later query; what next_solution does with the node is outside reach',
+        'solve / solve_all (unit solutions, verbatim bodies over the node heap of spec/solver.rs; ThreadTimer is an opaque stand-in type): a ghost counter shows that the search starts only after start_query_timer() and that the timer is cancelled on every path out, so no timer armed by one call can stop a later query',
         'parse_query: PROVED in Verus (unit parsers, verbatim body) that every query it returns was obtained from make_query (provenance clause #query_from_constructor over the uninterpreted marker built_by_make_query, '
         'assumed only at make_query\'s call sites); make_query\'s reset of the two globals is the Kani harness. A direct Kani harness on parse_query (kani/src/globals.rs, parse_complex stubbed) did not finish in 15 min / 9.5 GB and is not registered',
     ],
@@ -220,8 +220,8 @@ SOLVER_FNS = ['solution_node.rs::next_solution', 'solution_node_and_or.rs::next_
               'goal.rs::make_solution_node', 'goal.rs::make_base_node', 'goal.rs::set_head_node', 'solution_node.rs::SolutionNode::new',
               'built_in_predicates.rs::next_solution_bip']
 PROPS['C05'] = {
-    'units': ['solver'],
-    'functions': SOLVER_FNS,
+    'units': ['solver', 'solutions'],
+    'functions': SOLVER_FNS + ['solutions.rs::solve', 'solutions.rs::solve_all'],
     'oracles': {'*': 'c05_reask', '#programs': 'c05_prog'},
     'bounded': [('c05_reask', 'supplementary to the proof, and the source of witnesses: 26 queries (facts, rules, and / or, not, nested not, cut, time, print, comparison, count) over one program, asked through next_solution() and through solve() '
                               'until "no more" is reported, then asked four more times: no answer and no output may follow')],
@@ -230,7 +230,7 @@ PROPS['C05'] = {
         'calls no predicate of the knowledge base and writes nothing - for complex goals, and / or, not, time and built-in predicates, whatever the knowledge base, the bindings and the results of unification; the invariant is kept by every request, also by those that answer. '
         'Partial correctness: the search need not terminate; the statement is about requests that return',
         'RELATIVE TO the heap model of Rc<RefCell<SolutionNode>> (T8) and to the ASSUMED specification of the unsafe walk of set_no_backtracking (`walked`, spec/solver.rs). next_solution_bip is PROVED in the unit (it tests and clears `more_solutions` before anything else; print / print_list / nl are one output event; the predicates themselves are abstract; an unknown functor or a missing operand of `=` panics, i.e. does not return). make_solution_node, make_base_node, set_head_node and SolutionNode::new are PROVED in the same unit (rule R15h: rc_cell!(x) is an allocation in the ghost heap): a fresh node one level below its parent with the given goal and bindings, operator nodes get their head node, existing nodes untouched, the invariant kept also while the nodes above are under construction',
-        'solve() / solve_all(): that "No more." is returned exactly when next_solution returned None and the query was not stopped is read from their 20 lines, not proved (unit solutions proves the timer discipline only); the bounded oracle asks through solve() as well',
+        'solve() / solve_all() are under proof too (unit solutions, over the same heap, next_solution through its contract): asked on a query whose base node is done, solve() returns NO_MORE unless the timer stopped the query, solve_all() collects nothing but possibly the time-out message, and neither writes anything',
         'unify, get_rule, Rule::get_head/get_body, Goal::key, get_var_id/set_var_id are ABSTRACT in this unit (signature only, arbitrary results): the clauses hold for every behaviour of theirs that returns; their own panics are outside (C06, C10, C18 cover them under their preconditions)',
     ],
 }
